@@ -194,7 +194,7 @@ func (k *wk) callPipe(name, arg string, f func() error, after func(*Rec)) {
 		return
 	}
 	// run the call, then amend the record before it is sent: wrap send
-	k.send(map[string]string{"b": name, "a": arg})
+	k.begin(name, arg)
 	rec := k.measure(name, arg, func() ([]string, error) { return nil, f() })
 	after(&rec)
 	if rec.Prod == 0 && rec.G1 <= rec.G0 {
